@@ -297,7 +297,8 @@ def admonition(ctx):
 META_LINES = [(" author: Jane Doe", ("author", "Jane Doe")), (" Author: Jane Doe", ("author", "Jane Doe")), (" version: 1.2", ("version", "1.2")),
               (" deprecated: true", ("deprecated", True)), (" graph: false", ("graph", False)), (" display: private", ("display", ["private"])),
               (" summary: short text", ("summary", "short text"))]
-BODY_LINES = [" First paragraph words", " note: this is not a key", " http://example.org: a link", " second line", " - item: one"]
+BODY_LINES = [" First paragraph words", " note: this is not a key", " http://example.org: a link", " second line", " - item: one",
+              "     codeone = codetwo + 1", "      deeper: indented"]  # the last two: an indented code block (4+ blanks after the mark)
 
 
 def _meta_prog(lines):
